@@ -964,9 +964,10 @@ def _nz(*defaults):
     return ":nonzero-default" if any(d != 0 for d in defaults) else ""
 
 
-def _judge_fiber(mon, what, res, expected, region, d_res, suffix="", note=""):
+def _judge_fiber(mon, what, res, expected, region, d_res, suffix="", note="", loose=()):
     """Dense-view comparison.  expected: {coord: value} for the coordinates that must hold a value;
-    every other coordinate must be empty (absent or holding d_res).  region(c) names the coordinate class."""
+    every other coordinate must be empty (absent or holding d_res).  region(c) names the coordinate class.
+    loose: coordinates whose expected value is compared with == only (see _loose_coords)."""
     mon.count("fiber_ops_checked")
     if not isinstance(res, Fiber):
         mon.check(False, f"{what}:result-not-fiber", f"{what} returned {type(res).__name__}")
@@ -982,7 +983,7 @@ def _judge_fiber(mon, what, res, expected, region, d_res, suffix="", note=""):
     bad = {}
     for c, e in expected.items():
         g = got.get(c, d_res)
-        if not same(g, e) and not (c not in got and g == e):
+        if not same(g, e) and not ((c not in got or c in loose) and g == e):
             bad.setdefault(region(c), []).append((c, g, e))
     for c, g in got.items():
         if c not in expected and g != d_res:
@@ -1019,6 +1020,13 @@ def _call(mon, what, fn, metrics=False):
         return False, None
 
 
+def _loose_coords(m, d):
+    """Coordinates of stored elements that are empty (== default) without being the default type-strictly, e.g. a
+    stored -1.0 (an earlier product) under default -1: whether the operation reads the stored value or the fiber's
+    default there is not fixed by the statement, so the numeric type of the result at such a coordinate is not judged."""
+    return {c for c, v in m.items() if v == d and not same(v, d)}
+
+
 def _nonempty(m, d):
     return {c for c, v in m.items() if v != d}
 
@@ -1049,6 +1057,7 @@ def _ff_once(mon, sym, inplace, a, b, da, db, met=False, history_step=False):
     def region(c, na=na, nb=nb):
         return "both" if (c in na and c in nb) else "self-only" if c in na else "other-only" if c in nb else "neither"
     note = _state_note(mon, what, a, b)
+    loose = _loose_coords(ma, da) | _loose_coords(mb, db)
     if history_step:
         mon.count("history_steps_judged")
     if inplace:
@@ -1057,14 +1066,14 @@ def _ff_once(mon, sym, inplace, a, b, da, db, met=False, history_step=False):
             return None
         mon.count("inplace_identity_checked")
         mon.check(res is a, f"{what}:rebinds", f"{what} returned {type(res).__name__} instead of the updated fiber itself")
-        _judge_fiber(mon, what, a, exp, region, da, suffix, note)
+        _judge_fiber(mon, what, a, exp, region, da, suffix, note, loose)
         mb2, _ = raw_map(b)
         mon.check(mb2 == mb, f"{what}:other-operand-changed", f"{what} changed the right operand: {mb} -> {mb2}{note}")
     else:
         ok, res = _call(mon, what, lambda: (operator.add if sym == "+" else operator.mul)(a, b), met)
         if not ok:
             return None
-        _judge_fiber(mon, what, res, exp, region, da, suffix, note)
+        _judge_fiber(mon, what, res, exp, region, da, suffix, note, loose)
         ma2, _ = raw_map(a)
         mb2, _ = raw_map(b)
         mon.check(ma2 == ma and mb2 == mb, f"{what}:operand-changed",
@@ -1116,6 +1125,7 @@ def _run_fs(case, mon):
             return "self-only" if c in na else "neither"
         sc = Payload(s) if case.get("boxed") else s          # a boxed scalar is a scalar too
         note = _state_note(mon, what, a)
+        loose = _loose_coords(ma, da)
         if form == "f+s":
             ok, res = _call(mon, what, lambda: a + sc, met)
         elif form == "s+f":
@@ -1135,9 +1145,9 @@ def _run_fs(case, mon):
         if form in ("f+=s", "f*=s"):
             mon.count("inplace_identity_checked")
             mon.check(res is a, f"{what}:rebinds", f"{what} returned {type(res).__name__} instead of the updated fiber itself")
-            _judge_fiber(mon, what, a, exp, region, da, suffix, note)
+            _judge_fiber(mon, what, a, exp, region, da, suffix, note, loose)
         else:
-            _judge_fiber(mon, what, res, exp, region, da, suffix, note)
+            _judge_fiber(mon, what, res, exp, region, da, suffix, note, loose)
             ma2, _ = raw_map(a)
             mon.check(ma2 == ma, f"{what}:operand-changed", f"{what} changed its operand: {ma} -> {ma2}{note}")
         if ma and any(v != da for v in exp.values()):
